@@ -4,6 +4,7 @@ import (
 	"go/token"
 	"go/types"
 	"sort"
+	"strconv"
 	"strings"
 
 	"golang.org/x/tools/go/ssa"
@@ -809,13 +810,7 @@ func c11OutputsLast(e *Env) {
 		return ""
 	}
 	n := 0
-	for _, f := range e.RepoFuncsSorted() {
-		if f.Package() != sp || f.Parent() != nil {
-			continue
-		}
-		if len(ir.CallsIn(f, func(c *ssa.CallCommon) bool { return ir.IsCallTo(c, "os/exec.CommandContext", "os/exec.Command") })) == 0 {
-			continue
-		}
+	for _, f := range e.procCtors() {
 		inCtor := map[*ssa.Function]bool{}
 		var ctorFns []*ssa.Function
 		for _, g := range e.staticClosure(f) {
@@ -831,6 +826,70 @@ func c11OutputsLast(e *Env) {
 					continue
 				}
 				n++
+				// the environment as a table of layers (`[][]string{os.Environ(), step.Variables,
+				// …, outputsOf(step)}` appended front to back by a range loop): the order of the
+				// appends is the order of the literal's elements
+				if rootFn(g) != f {
+					layered := false
+					var facts []string
+					for _, cs := range e.StaticCallSites(rootFn(g)) {
+						cv, isV := cs.(ssa.Value)
+						if !isV || !inCtor[cs.Parent()] || cv.Referrers() == nil {
+							continue
+						}
+						for _, ref := range *cv.Referrers() {
+							st, isSt := ref.(*ssa.Store)
+							if !isSt {
+								continue
+							}
+							ia, isIA := st.Addr.(*ssa.IndexAddr)
+							if !isIA {
+								continue
+							}
+							k, isK := ir.ConstInt(ia.Index)
+							arr, isAl := ia.X.(*ssa.Alloc)
+							if !isK || !isAl || arr.Referrers() == nil {
+								continue
+							}
+							layered = true
+							for _, r2 := range *arr.Referrers() {
+								ia2, ok2 := r2.(*ssa.IndexAddr)
+								if !ok2 || ia2.Referrers() == nil {
+									continue
+								}
+								j, isJ := ir.ConstInt(ia2.Index)
+								for _, r3 := range *ia2.Referrers() {
+									if st2, isSt2 := r3.(*ssa.Store); isSt2 && isJ && j > k {
+										if w := isStatic(st2.Val); w != "" {
+											facts = append(facts, w+" is layer "+strconv.Itoa(int(j))+", the captured outputs layer "+strconv.Itoa(int(k))+" ("+e.InstrPos(st2)+")")
+										}
+									}
+								}
+							}
+						}
+					}
+					if layered {
+						// the table is walked by a range loop (front to back) in the constructor's closure
+						walked := false
+						for _, h := range ctorFns {
+							if len(e.C.FieldStores(h, "Env")) == 0 {
+								continue
+							}
+							for _, b := range h.Blocks {
+								for _, in := range b.Instrs {
+									if ph, isPhi := in.(*ssa.Phi); isPhi && ph.Comment == "rangeindex" {
+										walked = true
+									}
+								}
+							}
+						}
+						if walked {
+							r.Check(len(facts) == 0, shortName(f)+": nothing static is appended to the child's environment after the captured outputs", e.InstrPos(ci),
+								"a static list is appended to the child's environment after the captured outputs: when an output's name also occurs there (an `env:` start value, a named parameter) the child process sees the load-time value instead of what the producing step printed", facts...)
+							continue
+						}
+					}
+				}
 				// the point from which the outputs are in the environment: the Range, or -
 				// when the callback only collects them into a local list - the append of that list
 				var point ssa.Instruction = ci
@@ -899,6 +958,42 @@ func c11OutputsLast(e *Env) {
 	}
 }
 
+// procCtors: the constructors of the executors that run a local process - functions of
+// the executor package whose closure inside the package creates an exec.Cmd and that no
+// other function of the package calls (they are reached through the registry).
+func (e *Env) procCtors() []*ssa.Function {
+	sp := e.P.Pkg("internal/dag/executor")
+	if sp == nil {
+		return nil
+	}
+	isCmd := func(c *ssa.CallCommon) bool { return ir.IsCallTo(c, "os/exec.CommandContext", "os/exec.Command") }
+	var out []*ssa.Function
+	for _, f := range e.RepoFuncsSorted() {
+		if f.Package() != sp || f.Parent() != nil || f.Synthetic != "" || f.Blocks == nil {
+			continue
+		}
+		makes := len(ir.CallsIn(f, isCmd)) > 0
+		for _, g := range e.staticClosure(f) {
+			if g.Blocks != nil && rootFn(g).Package() == sp && len(ir.CallsIn(g, isCmd)) > 0 {
+				makes = true
+			}
+		}
+		if !makes {
+			continue
+		}
+		called := false
+		for _, cs := range e.StaticCallSites(f) {
+			if rootFn(cs.Parent()).Package() == sp && rootFn(cs.Parent()) != f {
+				called = true
+			}
+		}
+		if !called {
+			out = append(out, f)
+		}
+	}
+	return out
+}
+
 // ---------------------------------------------------------------------------
 // correct-table (C08, C20)
 
@@ -958,10 +1053,28 @@ func cCorrectTable(e *Env, rule string) {
 						for _, gl := range lits {
 							l := gl.l
 							plain = append(plain, l)
-							if l.Kind == "cmp" && l.Op == token.EQL && e.IsFieldRead(l.X, gl.recv, "Status") {
-								if k, isC := ir.ConstInt(l.Y); isC && k == ConstVal(ss, "StatusRunning") {
-									underRunning = true
+							// the test itself, or a predicate of the package that makes it
+							// (`st.recordedAsRunning()`): every way the predicate holds
+							alts := e.expandBound([]ir.NLit{l})
+							all := len(alts) > 0
+							for _, alt := range alts {
+								found := false
+								for _, bl := range alt {
+									if bl.Kind != "cmp" || bl.Op != token.EQL {
+										continue
+									}
+									pth, okP := e.C.PathOf(bl.X)
+									if !okP || !pth.Suffix("Status") || len(pth.Fields) != 1 || bl.Val(pth.Root) != ir.Resolve(gl.recv) {
+										continue
+									}
+									if k, isC := ir.ConstInt(bl.Val(bl.Y)); isC && k == ConstVal(ss, "StatusRunning") {
+										found = true
+									}
 								}
+								all = all && found
+							}
+							if all {
+								underRunning = true
 							}
 						}
 						switch field {
